@@ -18,6 +18,9 @@ def main(argv):
     if what == "kernel":
         from selftest import kerneltest
         return kerneltest.run(rest)
+    if what == "refactors":
+        from selftest import refactors
+        return refactors.run(rest)
     if what == "seeded":
         from selftest import seeded
         return seeded.run(rest)
